@@ -355,7 +355,47 @@ def snapshot(m):
         ser = m.serialize()
     except Exception as err:  # noqa
         ser = f"<serialize raised {type(err).__name__}>"
-    return ser, [(k, repr(v)) for k, v in vars(m).items()]
+    try:
+        txt = str(m) + "|" + repr(m)
+    except Exception as err:  # noqa
+        txt = f"<str/repr raised {type(err).__name__}>"
+    return ser, [(k, repr(v)) for k, v in vars(m).items()], txt
+
+
+def python_protocols(m):
+    """What Python itself does with objects - hashing, comparing, copying, pickling,
+    formatting: none of it may change the message, and a copy is the same message.
+    -> [(what, detail)] problems."""
+    import copy
+    import pickle
+
+    probs = []
+    before = snapshot(m)
+    made = []
+    for what, fn in (("hash", lambda: hash(m)), ("in-set", lambda: m in {m}), ("dict-key", lambda: {m: 1}[m]),
+                     ("eq", lambda: (m == m, m != 1, m == None)),  # noqa: E711
+                     ("bool", lambda: bool(m)), ("format", lambda: format(m)), ("dir", lambda: dir(m)),
+                     ("copy", lambda: made.append(("copy.copy", copy.copy(m)))),
+                     ("deepcopy", lambda: made.append(("copy.deepcopy", copy.deepcopy(m)))),
+                     ("pickle", lambda: made.append(("pickle round trip", pickle.loads(pickle.dumps(m)))))):
+        try:
+            fn()
+        except Exception:  # noqa - whether an operation is supported is not the point
+            continue
+        now = snapshot(m)
+        if now != before:
+            probs.append((f"changed-by:{what}", f"{what} changed the message: {str(now)[:120]} vs {str(before)[:120]}"))
+            before = now
+    for how, c in made:
+        try:
+            same = (c.serialize() == m.serialize() and str(c) == str(m)
+                    and [(k, repr(v)) for k, v in C.public_attrs(c)] == [(k, repr(v)) for k, v in C.public_attrs(m)])
+        except Exception as err:  # noqa
+            same = False
+            how += f" ({type(err).__name__})"
+        if not same:
+            probs.append((f"copy-differs:{how.split(' ')[0]}", f"{how} of {str(m)[:80]} is a different message"))
+    return probs
 
 
 def check(case) -> core.Out:
@@ -410,6 +450,8 @@ def check(case) -> core.Out:
         if after != before:
             out.viol.append((key + "state-changed", f"{case['op']}({name!r}) changed the message "
                                                     f"(serialize/vars differ)"))
+        for what, detail in python_protocols(m):
+            out.viol.append((f"{PROP}|python-protocol|{what}", detail))
         return out
     if k == "silence":
         ops = case["ops"]
